@@ -84,9 +84,9 @@ def _check_one(f, ch):
     except Exception as e:  # noqa
         raise Violation("hash_equals_c_arithmetic", {"challenge": ch}, exp,
                         f"raised {type(e).__name__}: {e}")
-    if got != exp:
-        raise Violation("hash_equals_c_arithmetic", {"challenge": ch}, exp, got,
-                        "published formula with truncating remainder")
+    if got != exp or type(got) is not int:
+        raise Violation("hash_equals_c_arithmetic", {"challenge": ch}, exp, repr(got),
+                        "published formula with truncating remainder (an int, as the EO int field needs)")
     if ch <= DOC_BOUND and not (0 <= got < INT_MAX):
         raise Violation("nonnegative_eo_int_up_to_documented_bound", {"challenge": ch},
                         "0 <= hash < 253^4", got)
